@@ -500,6 +500,16 @@ func (fl *Flow) refine(st State, cond ast.Expr, val bool) State {
 			if other != nil {
 				k, ok := KeyOf(info, other)
 				if !ok {
+					// `f(...) != nil` tested directly: record the outcome of that call
+					if ce, isCall := ast.Unparen(other).(*ast.CallExpr); isCall {
+						n := IsNil
+						if (x.Op == token.EQL) != val {
+							n = NonNil
+						}
+						out := st.clone()
+						fl.recordOutcome(out, other, Fact{Def: ce}, n)
+						return out
+					}
 					return st
 				}
 				want := IsNil
